@@ -170,3 +170,81 @@ pub fn case(plans: &'static [&'static str], mix: Mix, focus: &'static str, max_o
         })
         .boxed()
 }
+
+/// C09: allocate up to a fraction of the heap, drop everything, exhaustive GC; repeated.
+pub fn c09_case(long: bool) -> BoxedStrategy<Case> {
+    let plans = &COLLECTING_PLANS;
+    (0..plans.len(), any::<u8>(), 1u8..4, 8000u32..24000, if long { 60u32..300 } else { 12u32..40 }, prop::collection::vec((1u8..30, small_extra(), prop_oneof![6 => Just(0u8), 1 => Just(2u8), 1 => Just(6u8)], any::<bool>(), any::<bool>()), 2..6))
+        .prop_map(move |(pi, v, workers, heap_kb, cycles, mix)| {
+            let plan = plans[pi];
+            let mut ops = vec![];
+            for cyc in 0..cycles {
+                for (k, (n, extra, sem, weakish, fin)) in mix.iter().enumerate() {
+                    let root = ((k * 37 + 11) % 250) as u8;
+                    // sizes vary per cycle so that freed memory is reused at different granularities
+                    let extra = (*extra + (cyc * 8) % 64) as u16;
+                    ops.push(Op::Chain { m: 0, root, n: *n, extra, sem: *sem });
+                    if *weakish {
+                        ops.push(Op::Alloc { m: 0, root: root.wrapping_add(1), extra: 16, nrefs: 2, kind: 2, sem: 0, align_log: 0, offset_w: 0, referent: root });
+                    }
+                    if *fin {
+                        ops.push(Op::AddFinalizer { m: 0, root });
+                    }
+                }
+                ops.push(Op::Churn { m: 0, kb: (heap_kb / 8) as u16, size: 64 + (cyc % 5) as u16 * 24 });
+                ops.push(Op::DropAllRoots);
+                ops.push(Op::Gc { m: 0, force: true, exhaustive: true });
+                ops.push(Op::PopFinalized { m: 0, root: 200, n: 7 });
+                ops.push(Op::PopFinalized { m: 0, root: 200, n: 7 });
+                ops.push(Op::DropAllRoots);
+            }
+            Case { plan: plan.to_string(), variant: variant_for(plan, v), heap_kb, dyn_heap: None, workers, mutators: 1, opts: vec![("full_heap_system_gc".into(), "true".into())], copy_spin: 0, focus: "C09".into(), ops }
+        })
+        .boxed()
+}
+
+/// C10: fill the heap with reachable data, then probe alloc_with_options.
+pub fn c10_case() -> BoxedStrategy<Case> {
+    let plans = &COLLECTING_PLANS;
+    let mix = Mix { alloc_opts: 40, churn_weight: 0, gc_weight: 1, big: false, sems: false, region_copy: false, old_young: 0, mutator_ops: false, ..Mix::BASIC };
+    (0..plans.len(), any::<u8>(), 1u8..4, 3000u32..9000, 30u8..90, prop::collection::vec(op(mix), 10..50))
+        .prop_map(move |(pi, v, workers, heap_kb, fill_pct, tail)| {
+            let plan = plans[pi];
+            let mut ops = vec![];
+            // reachable fill: chains of ~1 KiB objects
+            let target_kb = heap_kb as usize * fill_pct as usize / 100;
+            let per_chain_kb = 48usize;
+            let chains = (target_kb / per_chain_kb).min(200);
+            for k in 0..chains {
+                ops.push(Op::Chain { m: 0, root: ((k * 5) % 240) as u8, n: 47, extra: 980, sem: 0 });
+                if k % 5 == 4 {
+                    // link chains together so that few roots keep everything alive
+                    ops.push(Op::Write { m: 0, src: ((k * 5) % 240) as u8, field: 255, dm: 0, dst: (((k - 1) * 5) % 240) as u8, null: false });
+                }
+            }
+            ops.extend(tail);
+            Case { plan: plan.to_string(), variant: variant_for(plan, v), heap_kb, dyn_heap: None, workers, mutators: 1, opts: vec![], copy_spin: 0, focus: "C10".into(), ops }
+        })
+        .boxed()
+}
+
+/// C12: ConcurrentImmix with the heap sized so that allocation crosses the concurrent trigger.
+pub fn c12_case() -> BoxedStrategy<Case> {
+    let mix = Mix { churn_weight: 8, gc_weight: 1, old_young: 6, big: false, weak: true, ..Mix::BASIC };
+    (any::<u8>(), 1u8..5, 1u8..3, 3000u32..12000, plan_opts("ConcurrentImmix"), prop::collection::vec(op(mix), 30..160))
+        .prop_map(|(v, workers, mutators, heap_kb, opts, ops)| Case { plan: "ConcurrentImmix".into(), variant: variant_for("ConcurrentImmix", v), heap_kb, dyn_heap: None, workers, mutators, opts, copy_spin: 0, focus: "C12".into(), ops })
+        .boxed()
+}
+
+/// C34: Immix family with many GCs and objects straddling lines.
+pub fn c34_case() -> BoxedStrategy<Case> {
+    const P: [&str; 4] = ["Immix", "GenImmix", "StickyImmix", "ConcurrentImmix"];
+    let mix = Mix { gc_weight: 22, churn_weight: 3, big: true, sems: true, ..Mix::BASIC };
+    (0..P.len())
+        .prop_flat_map(move |pi| {
+            let plan = P[pi];
+            (Just(plan), any::<u8>(), heap_kb(), 1u8..5, plan_opts(plan), prop::collection::vec(op(mix), 30..160))
+        })
+        .prop_map(|(plan, v, heap_kb, workers, opts, ops)| Case { plan: plan.to_string(), variant: variant_for(plan, v), heap_kb, dyn_heap: None, workers, mutators: 1, opts, copy_spin: 0, focus: "C34".into(), ops })
+        .boxed()
+}
